@@ -3,22 +3,23 @@ PROP = dict(
     functions=[
         "ntp_proto::ipfilter::IpFilter::is_in / is_in4 / is_in6, BitTree::lookup (symbolically executed for every address)",
         "ntp_proto::ipfilter::IpFilter::new / BitTree::create / fill_node (executed natively by np_misc_h/build.rs on /repo's working tree for each concrete subnet list; the resulting tries are the constants the harnesses load)",
-        "<ntp_proto::IpSubnet as FromStr>::from_str (c31_parse_v4)",
     ],
     bounds="every IPv4 address (plain and IPv4-mapped) and every IPv6 address against each subnet list of the generated tables (list index symbolic). "
            "IPv4 quick: empty list, 192.168.1.165/m for every m, 108 nested pairs (both orders), 63 sibling pairs (m,m)/(m+1,m) for every m, duplicates/extremes, 64 pseudo-random pairs with shared prefixes; "
            "thorough: all 33x33 mask pairs of the nested pair in both orders and 1024 pseudo-random pairs. IPv6 quick: 17 masks incl. 0/1/127/128, sibling pairs at the top, around /64 and at /120../128, nested pairs, 24 pseudo-random pairs; "
-           "thorough: every mask 0..=128, every sibling pair, 272 nested pairs, 256 pseudo-random pairs. Lists have at most 2 subnets.",
+           "thorough: every mask 0..=128, every sibling pair, 162 nested pairs, 96 pseudo-random pairs. Lists have at most 2 subnets.",
     outside="subnet lists that are not in the generated tables (the construction is not executed symbolically: fill_node recurses from 16 guarded call sites per level over heap data, symbolic execution instantiates 16^depth copies even for one concrete /0 subnet - no result in 10 min, out of memory at 8 GB with two subnets); more than two subnets per list; "
-            "IpSubnet::from_str for IPv6 / IPv4-mapped text and for text that is not of the shape d.d.d.d/mm; IPv4-mapped IPv6 subnets handed to IpFilter::new directly (from_str canonicalises them to IPv4 first)",
+            "IpSubnet::from_str (the second clause of the property) is NOT decided: std's IpAddr parser on the template d.d.d.d/mm with symbolic digits did not finish within the 5-minute probe cap (cut off at 391 s / 4.2 GB); IPv4-mapped IPv6 subnets handed to IpFilter::new directly (from_str canonicalises them to IPv4 first)",
     assumptions=["subnets are canonical as produced by IpSubnet::from_str (IPv6 subnets are not IPv4-mapped, mask within the family width)"],
-    stub_notes=["alloc::fmt::format -> empty string (c31_parse_v4 error paths)",
-                "trusted: the harness crate's build script (runs /repo's IpFilter::new natively and writes the node tables) and the raw-node hooks filter_nodes / filter_from_nodes"],
+    stub_notes=["trusted: the harness crate's build script (runs /repo's IpFilter::new natively and writes the node tables) and the raw-node hooks filter_nodes / filter_from_nodes"],
     harnesses=[
-        H(NM, "c31", "c31_v4", "IPv4 lists (quick table): is_in <=> exists subnet with equal masked prefix, for plain and IPv4-mapped addresses; proper IPv6 addresses never listed", timeout=300),
-        H(NM, "c31", "c31_v6", "IPv6 lists (quick table): is_in <=> exists subnet with equal masked prefix; IPv4 / IPv4-mapped addresses never listed", timeout=300),
-        H(NM, "c31", "c31_parse_v4", "from_str(\"d.d.d.d/mm\"): accepted <=> mm <= 32, parsed fields exact", timeout=300),
-        H(NM, "c31", "c31_v4_full", "IPv4 lists (thorough table)", tier="thorough"),
-        H(NM, "c31", "c31_v6_full", "IPv6 lists (thorough table)", tier="thorough"),
-    ],
+        H(NM, "c31", "c31_v4_plain", "IPv4 lists (quick table, 272 lists) x every IPv4 address: is_in <=> exists subnet with equal masked prefix", timeout=300),
+        H(NM, "c31", "c31_v4_mapped", "same lists x every IPv4-mapped IPv6 address: matched as its IPv4 address", timeout=300),
+        H(NM, "c31", "c31_v4_proper_v6", "same lists x every proper IPv6 address: never listed", timeout=300),
+        H(NM, "c31", "c31_v6_quick", "IPv6 lists (first 40 of the quick table: empty, 17 masks incl. 0/1/127/128, sibling pairs /1../11) x every proper IPv6 address", timeout=400),
+        H(NM, "c31", "c31_v6", "IPv6 lists (quick table, 149 lists) x every proper IPv6 address", tier="thorough"),
+        H(NM, "c31", "c31_v6_v4_query", "IPv6 lists x every IPv4 / IPv4-mapped address: never listed", tier="thorough"),
+    ] + [H(NM, "c31", "c31_v4_full_plain_%d" % k, "IPv4 thorough table chunk %d (<= 1101 lists) x every IPv4 address" % k, tier="thorough") for k in range(3)]
+      + [H(NM, "c31", "c31_v4_full_mapped_%d" % k, "IPv4 thorough table chunk %d x every IPv4-mapped address" % k, tier="thorough") for k in range(3)]
+      + [H(NM, "c31", "c31_v6_full_%d" % k, "IPv6 thorough table chunk %d (<= 130 lists) x every proper IPv6 address" % k, tier="thorough") for k in range(5)],
 )
